@@ -590,11 +590,18 @@ def _alarm(sig, frm):
     raise _Budget()
 
 
+def _budget_for(qn, timeout_ms):
+    """Seconds one (function, variant) may take; contracts that need a larger solver budget get a proportionally larger one."""
+    base = int(os.environ.get("PYVC_FUNCTION_BUDGET_S", "150" if timeout_ms <= 10000 else "900"))
+    need = getattr(load_all()[1].get(qn), "min_timeout_ms", 0)
+    return max(base, 6 * need // 1000) if need > timeout_ms else base
+
+
 def _worker(args):
     import signal
     qn, vi, timeout_ms = args
+    budget = _budget_for(qn, timeout_ms)
     timeout_ms = max(timeout_ms, getattr(load_all()[1][qn], "min_timeout_ms", 0))
-    budget = int(os.environ.get("PYVC_FUNCTION_BUDGET_S", "150" if timeout_ms <= 10000 else "900"))
     signal.signal(signal.SIGALRM, _alarm)
     signal.alarm(budget)
     try:
@@ -638,7 +645,6 @@ def _child(conn, task):
 def _run_tasks(ctx, tasks, timeout_ms, width=16):
     """One process per (function, variant), at most `width` at a time; a process that overruns its budget (z3 can
     ignore its timeout inside recursive-function propagation) is killed and the function reported as undecided."""
-    budget = int(os.environ.get("PYVC_FUNCTION_BUDGET_S", "150" if timeout_ms <= 10000 else "900"))
     pending = list(enumerate(tasks))
     running, results = [], {}
     while pending or running:
@@ -661,7 +667,7 @@ def _run_tasks(ctx, tasks, timeout_ms, width=16):
             if not p.is_alive():
                 results[i] = None
                 continue
-            if time.time() - t0 > budget + 20:
+            if time.time() - t0 > _budget_for(t[0], timeout_ms) + 20:
                 p.terminate()
                 p.join(2)
                 if p.is_alive():
